@@ -128,8 +128,16 @@ def categories_st(draw, min_valid=1, max_valid=5, max_missing=2, flavour="cat",
         if flavour == "cat_date" and not missing:
             c["date"] = "20%02d-%02d" % (10 + pos // 12, 1 + pos % 12)
         cats.append(c)
-    if flavour == "cat_date" and not any("date" in c for c in cats):
-        cats[0]["date"] = "2010-01"
+    if flavour == "cat_date":
+        # some valid categories may be undated (e.g. a "Pilot" ahead of the waves); the
+        # variable stays categorical-date as long as any category carries a date
+        dated = [c for c in cats if "date" in c]
+        if len(dated) > 1 and draw(st.integers(0, 3)) == 0:
+            for c in draw(st.lists(st.sampled_from(dated), min_size=1, max_size=len(dated) - 1,
+                                   unique_by=lambda c: c["id"])):
+                del c["date"]
+        if not any("date" in c for c in cats):
+            cats[0]["date"] = "2010-01"
     return cats
 
 
